@@ -6,7 +6,7 @@
     version is canonical semver, every requirement path is a fixed point of CleanPath, and the requirements are
     the key-sorted association list of a map.  Go's nil and empty slices/maps are the same model value, so the
     "normalise" of the design is the identity here.  go-toml, x/mod/semver and path.Clean are modelled. *)
-From Dawn Require Import Config.Model Config.File Config.Proofs Config.ProofsFile.
+From Dawn Require Import Config.Model Config.File Config.Session Config.Proofs Config.ProofsFile Config.ProofsSession.
 
 (** Every string value: decoding its encoding gives it back, whatever follows it in the document. *)
 Theorem string_roundtrip : forall s rest, utf8 s -> parse_string (encode_string s ++ rest) = Some (s, rest).
@@ -57,6 +57,53 @@ Theorem consecutive_writes : forall content off a b, (off <= length content)%nat
 Proof. exact write_at_app. Qed.
 Print Assumptions consecutive_writes.
 
+(** A PROCESS that writes and loads configuration files (Config/Session.v): an operation names its file by some
+    spelling of a path; [OWrite sp f c] / [OLoad sp f] carry the spelling [sp] and the file [f] that spelling named
+    when the operation ran; [results s ops] = what the loads of the session return, [exec s ops] = the files left.
+    Wherever in a session a file is loaded, if the process wrote to that FILE earlier - through this spelling or any
+    other, with any loads and any writes to this or other files before or in between - the load yields the last
+    configuration written to it ... *)
+Theorem load_sees_last_write : forall s pre sp f post c,
+  last_written f pre None = Some c -> valid c ->
+  nth_error (results s (pre ++ OLoad sp f :: post)) (length (results s pre)) = Some (Some c).
+Proof. exact load_in_session. Qed.
+Print Assumptions load_sees_last_write.
+
+(** ... the file holds the bytes of a write to a fresh path, and writing what it loads as reproduces them. *)
+Theorem file_is_last_write : forall s pre f c,
+  last_written f pre None = Some c -> valid c ->
+  fs_get (exec s pre) f = Some (write_config_file None c) /\
+  option_map (write_config_file None) (load_config_file (fs_get (exec s pre) f)) = Some (write_config_file None c).
+Proof. exact file_in_session. Qed.
+Print Assumptions file_is_last_write.
+
+(** How the paths are spelled is irrelevant: re-spelling every path of a session (the files named staying the
+    same) changes neither what its loads return nor the files it leaves; and loads change nothing. *)
+Theorem spelling_irrelevant : forall r s ops,
+  results s (map (respell r) ops) = results s ops /\ exec s (map (respell r) ops) = exec s ops.
+Proof. exact spelling_irrelevant_full. Qed.
+Print Assumptions spelling_irrelevant.
+
+Theorem loads_leave_files_alone : forall ops s, exec s (filter is_write ops) = exec s ops.
+Proof. exact loads_change_nothing. Qed.
+Print Assumptions loads_leave_files_alone.
+
+(** dawn get / dawn tidy ([command f resolve]: load dawn.toml, resolve the new requirements, replace them, write;
+    [resolve] = mvs.Get / UpgradeAll / Tidy, [None] = it failed).  On a dawn.toml that loads as [c]: when resolution
+    fails the file is left exactly as it was; when it yields [rs] the file loads back as [c] with the requirements
+    [rs] - name, version and ignore patterns as before - and holds the canonical bytes of that configuration:
+    nothing is lost but comments and layout. *)
+Theorem command_loses_nothing : forall f resolve c,
+  load_config_file f = Some c ->
+  match resolve c with
+  | None => command f resolve = f /\ load_config_file (command f resolve) = Some c
+  | Some rs => valid (with_reqs c rs) ->
+      load_config_file (command f resolve) = Some (mkConfig (c_name c) (c_version c) (c_ignore c) rs) /\
+      command f resolve = Some (write (with_reqs c rs))
+  end.
+Proof. exact command_loses_nothing_full. Qed.
+Print Assumptions command_loses_nothing.
+
 (** ASCII strings with any control characters and quotes are within the quantifier. *)
 Theorem ascii_is_utf8 : forall s, Forall (fun b => b < 128) s -> utf8 s.
 Proof. exact utf8_ascii. Qed.
@@ -105,3 +152,18 @@ Proof.
       apply utf8_ascii; repeat constructor. }
   split; [exact V2|]. split; [exact V1|]. split; [discriminate|]. split; vm_compute; reflexivity.
 Qed.
+
+(** Why the commands must not write after a failed resolution: the requirements computed are then the nil map, and
+    writing the configuration with them yields a file that still loads - with name, version and ignore patterns, but
+    without any requirement. *)
+Example failed_resolution_must_not_write :
+  load_config_file (Some (write two_reqs)) = Some two_reqs /\
+  command (Some (write two_reqs)) (fun _ => None) = Some (write two_reqs) /\
+  load_config_file (Some (write_config_file (Some (write two_reqs)) (with_reqs two_reqs []))) = Some (with_reqs two_reqs []) /\
+  with_reqs two_reqs [] <> two_reqs.
+Proof. split; [vm_compute; reflexivity|]. split; [vm_compute; reflexivity|]. split; [vm_compute; reflexivity|discriminate]. Qed.
+
+(** A three-step session on one file under two spellings (1 and 2 both name file 0): the second load sees the rewrite. *)
+Example two_spellings :
+  results [] [OWrite 1 0 two_reqs; OLoad 1 0; OWrite 2 0 one_req; OLoad 1 0] = [Some two_reqs; Some one_req].
+Proof. vm_compute. reflexivity. Qed.
